@@ -57,6 +57,7 @@ type DialOutcome struct {
 
 // Stats counts what the network did in this run
 type Stats struct {
+	AcceptErrors                           int
 	Dials, Refused, DialTimeouts, Accepted int
 	Reads, Writes, PartialWrites           int
 	ReadTimeouts, WriteTimeouts            int
@@ -122,12 +123,13 @@ func tcpAddr(a string) *net.TCPAddr {
 
 // TCPListener is a listening socket
 type TCPListener struct {
-	w       *World
-	addr    string
-	backlog []*TCPConn
-	closed  bool
-	ev      chan struct{}
-	fd      int
+	OnAccept func() syscall.Errno // fault hook: a non-zero errno makes this accept fail
+	w        *World
+	addr     string
+	backlog  []*TCPConn
+	closed   bool
+	ev       chan struct{}
+	fd       int
 	// OnDial, if set, decides the outcome of each connection attempt (harness upstream scripts)
 	OnDial func() DialOutcome
 	// RxCap is the receive buffer size of accepted connections (0 = world default)
@@ -222,6 +224,14 @@ func (l *TCPListener) AcceptTCP() (*TCPConn, error) {
 			return nil, &net.OpError{Op: "accept", Net: "tcp", Addr: l.Addr(), Err: net.ErrClosed}
 		}
 		if len(l.backlog) > 0 {
+			if l.OnAccept != nil {
+				// a failing accept(2): the connection stays in the backlog, as in the kernel (EMFILE, ENFILE, ENOBUFS) - for
+				// ECONNABORTED the kernel drops it, which the harness models by resetting it in its hook
+				if errno := l.OnAccept(); errno != 0 {
+					l.w.Stats.AcceptErrors++
+					return nil, &net.OpError{Op: "accept", Net: "tcp", Addr: l.Addr(), Err: os.NewSyscallError("accept4", errno)}
+				}
+			}
 			c := l.backlog[0]
 			l.backlog = l.backlog[1:]
 			if l.SUT {
